@@ -71,7 +71,10 @@ def _prune_cache(d, keep):
     except OSError:
         return
     ents.sort(reverse=True)
-    for _, e in ents[keep:]:
+    now = time.time()
+    for mt, e in ents[keep:]:
+        if now - mt < 1800:
+            continue        # possibly in use by a concurrent run: entries are touched when they are handed out
         subprocess.run(['rm', '-rf', os.path.join(d, e)])
 
 
